@@ -181,6 +181,12 @@ def signals_end(t):
     return t[2] != "1" or (t[3] == "1" and (t[5] == "0" or t[4] == "0"))
 
 
+def marked_whole(t, r):
+    """a marked block (`~ilen`) offered WITH an idone pointer ends the input only if the call took all of it (soxr.h: idone says how
+    much was accepted; what was not accepted has not been supplied yet).  t: tokens of the `> cr.proc` line, r: its `< R` answer"""
+    return bool(t) and t[2] == "1" and t[3] == "1" and t[4] == "1" and "id" in r and int(r["id"]) == int(t[5])
+
+
 def block_sizes(plan):
     """Internal block lengths of an exported plan, for schedule sizes around them."""
     bs = set()
